@@ -9,7 +9,7 @@ hooks_commit = "c637aec"
 # id -> dict(level, text, note, technique, engine, design)
 claimed = {
  "C01": dict(level="exploration", engine="diffsim",
-   text="Differential monitoring of the real code against an executable sequential specification: every write entry point is applied in every reachable pre-state class (bounded-exhaustive setup x variant x follow-up sequences) and in PRNG-drawn long histories on in-memory and on-disk buckets, with a full read-back through every read entry point before and after every step and a model-free frame rule for failing calls. Exploration is the right level: the property quantifies over unbounded histories and inputs; the monitor decides it on each produced execution.",
+   text="Differential monitoring of the real code against an executable sequential specification: every write entry point is applied in every reachable pre-state class (bounded-exhaustive setup x variant x follow-up sequences) and in PRNG-drawn long histories on in-memory and on-disk buckets, with a full read-back through every read entry point (GetRaw, Get, Exists, GetExpiry, GetWithXattrs, GetXattrs, virtual xattrs) before and after every step and a model-free frame rule for failing calls; reads through the DataStore a second handle still holds for a dropped collection must report every key missing. Exploration is the right level: the property quantifies over unbounded histories and inputs; the monitor decides it on each produced execution.",
    note="Holds on the executions produced (see evidence for counts and the covered (op variant, pre-state, outcome) cells). Trusts: the specification in harness/internal/kv/model.go (DESIGN.md §3, Appendix A), SQLite, the Go runtime. Keys/bodies/xattr names come from small pools plus hostile keys and a MaxDocSize boundary profile.",
    technique="runtime differential monitor: sequential reference model + read-back after every step + frame rule", design="§5 C01"),
  "C05": dict(level="exploration", engine="diffsim",
@@ -40,11 +40,11 @@ claimed.update({
    note="Races are sampled schedules (plus hook noise), not all interleavings; the forced windows cover the three read-then-write loops the property names. Also run under the Go race detector.",
    technique="runtime differential monitor + one-winner race oracle + hook-placed rival in the read-write window", design="§5 C02"),
  "C03": dict(level="exploration", engine="linz",
-   text="Concurrent histories (3-8 goroutines over 1-3 handles, 1-3 keys + a counter, memory and disk) are recorded at the client boundary with call/return ticks from one atomic counter and unique tokens in every value, and decided per key by porcupine v1.3.0 against a compact sequential model whose Update / WriteUpdateWithXattrs steps require that the stored value was built on exactly the version the callback saw; conservation monitors for Incr sums and Update token lists; every workload repeated under the Go race detector.",
-   note="Schedules are sampled; a porcupine timeout is inconclusive. Expiry and revision numbers are not part of the concurrent model. Race reports count only when both stacks hold rosmar frames; each signature has one owner property.",
+   text="Concurrent histories (3-8 goroutines over 1-3 handles, 1-3 keys + a counter, memory and disk) are recorded at the client boundary with call/return ticks from one atomic counter and unique tokens in every value, and decided per key by porcupine v1.3.0 against a compact sequential model (body, xattrs, CAS, expiry) whose Update / WriteUpdateWithXattrs steps require that the stored value was built on exactly the version the callback saw and whose Touch / GetAndTouchRaw / GetExpiry steps tie a unique expiry to the version that received it; conservation monitors for Incr sums and Update token lists; every workload repeated under the Go race detector.",
+   note="Schedules are sampled; a porcupine timeout is inconclusive. Revision numbers are not part of the concurrent model (see C17's concurrent counter); the expiry after a sub-document write is not pinned. Race reports count only when both stacks hold rosmar frames; each signature has one owner property.",
    technique="recorded histories + porcupine linearizability checking + conservation monitors + Go race detector", design="§5 C03"),
  "C04": dict(level="exploration", engine="hlc+linz+crash",
-   text="Clock monitor: a HybridLogicalClock built through the verif-only constructor reads scripted clocks (constant, decreasing, saw-tooth, backward jumps, sub-granularity advance, equal runs, zero, near 2^62, random) from 1-64 goroutines: per-caller strict increase, uniqueness, above the seed, real-time order by an n log n sweep; bucket monitor: the same scripts installed into the process-global clock while 3-8 writers hit 2-3 buckets (with buckets opened and old-CAS WithMeta writes mid-run): same checks over casOut across buckets, plus per key: the CAS grows strictly along the order in which the writes were applied (live feeds on every collection, flushed by a sentinel write) and the stored CAS is the largest any writer was handed; reopen monitor: writer child with the clock an hour ahead (killed at a hook point / closed, optionally after dropping the collection that got the highest CAS, or after WithMeta writes that carry old CAS values into other collections as the last writes), reopening child with the clock an hour behind: every new CAS exceeds every acknowledged one.",
+   text="Clock monitor: a HybridLogicalClock built through the verif-only constructor reads scripted clocks (constant, decreasing, saw-tooth, backward jumps, sub-granularity advance, equal runs, zero, near 2^62, random) from 1-64 goroutines: per-caller strict increase, uniqueness, above the seed, real-time order by an n log n sweep; bucket monitor: the same scripts installed into the process-global clock while 3-8 writers hit 2-3 buckets (with buckets opened and old-CAS WithMeta writes mid-run): same checks over casOut across buckets, plus per key: the CAS grows strictly along the order in which the writes were applied (live feeds on every collection, flushed by a sentinel write) the stored CAS is the largest any writer was handed and equals the CAS of the last applied write (Add and Delete, which return no CAS, are in the mix); reopen monitor: writer child with the clock an hour ahead (killed at a hook point / closed, optionally after dropping the collection that got the highest CAS, or after WithMeta writes that carry old CAS values into other collections as the last writes), reopening child with the clock an hour behind: every new CAS exceeds every acknowledged one.",
    note="Clock readings bounded to [0, 2^62]. WithMeta writes carry caller-chosen CAS and are excluded by the statement.",
    technique="order/uniqueness checker over recorded timestamps with injected clocks; child-process reopen with rewound clock; race detector", design="§5 C04"),
  "C08": dict(level="exploration", engine="diffsim+linz",
@@ -52,43 +52,43 @@ claimed.update({
    note="Delivery is asserted at a fence (bounded progress, 30 s). TimeReceived, VbNo, Flags, Synchronous and the xattr framing flag are not compared.",
    technique="runtime monitor: event multiset = acknowledged mutations, field equality with read-back, per-feed CAS order; hook-placed inversion probe", design="§5 C08"),
  "C09": dict(level="exploration", engine="diffsim+linz",
-   text="Snapshot monitor: Dump feeds from several start CAS values (every fourth KeysOnly) compared with the read-back of every key (markers, CAS order, membership, multiplicity, every field as a live event would carry it); join monitor: a backfill+live feed started while 2-6 writers run, with the feed.registered hook parking the starter between backfill and registration; after a fence the newest event per key must be its final version.",
+   text="Snapshot monitor: Dump feeds from several start CAS values (every fourth KeysOnly) compared with the read-back of every key (markers, CAS order, membership, multiplicity, every field as a live event would carry it, and - where the live feed delivered the same version (CAS, RevNo) - field by field against that live event); join monitor: a backfill+live feed started while 2-6 writers run, with the feed.registered hook parking the starter between backfill and registration; after a fence the newest event per key must be its final version.",
    note="Schedules of the join are sampled; the hook guarantees that the window is entered in every run.",
    technique="runtime differential monitor over backfill events + hook-forced backfill/registration window", design="§5 C09"),
  "C10": dict(level="fault_enumeration", engine="crash",
-   text="Crash-point enumeration with real process death: a writer child streams INTENT/ACK lines and is SIGKILLed at the n-th hit of each hook point inside and around the write transaction, inside SQLite's commit (strace-injected SIGKILL at the N-th pwrite64), right after the last ACK, externally while idle, or closes cleanly; a fresh process reopens (both open modes) and dumps everything; oracle: every key equals its last acknowledged read-back, the in-flight key is unchanged or passes the full sequential judge as a completed call, UUID / collections / design documents kept, the non-stale view agrees with the surviving documents, CAS after reopen with a rewound clock exceeds all acknowledged CAS, pending and overdue expirations fire after reopen.",
+   text="Crash-point enumeration with real process death: a writer child streams INTENT/ACK lines and is SIGKILLed at the n-th hit of each hook point inside and around the write transaction, inside SQLite's commit (strace-injected SIGKILL at the N-th pwrite64), right after the last ACK, externally while idle, or closes cleanly; a fresh process reopens (both open modes) and dumps everything; oracle: every key equals its last acknowledged read-back, the in-flight key is unchanged or passes the full sequential judge as a completed call, UUID / collections (with the filler documents of admin-created collections: create/fill/drop cycles are killed by strace between the statements of one admin call) / design documents kept, a refused CreateNew before the reopen leaves the bucket intact, the non-stale view agrees with the surviving documents, CAS after reopen with a rewound clock exceeds all acknowledged CAS, pending and overdue expirations fire after reopen.",
    note="Process death only (page cache survives): power loss / fsync ordering is out of reach. Kills before the bucket was reported open are outside the statement. strace counts pwrite64 per thread, so N selects a crash point only approximately; the oracle does not depend on where the kill landed.",
    technique="fault injection (hook self-kill, strace syscall-level SIGKILL) + reopen in a fresh process + state oracle", design="§5 C10"),
  "C12": dict(level="exploration", engine="diffsim",
-   text="View oracle: four map functions with native Go twins evaluated over a KV read-back of every key, sorted with sg-bucket's JSONCollator then id, parameters (key, range, inclusive_end, limit, descending, reduce, group, group_level) applied by an independent implementation; queries at PRNG-chosen points of histories through every entry point (WithMeta writes with CAS above / below / far above the clock, purges, drops), design documents replaced mid-history, design documents and queries issued through alternating handles, and a freshly built identical view cross-checked against the incrementally maintained one.",
+   text="View oracle: four map functions with native Go twins evaluated over a KV read-back of every key, sorted with sg-bucket's JSONCollator then id, parameters (key, range, inclusive_end, limit, descending, reduce, group, group_level) applied by an independent implementation; queries at PRNG-chosen points of histories through every entry point (WithMeta writes with CAS above / below / far above the clock, purges, drops), design documents replaced mid-history (by another map function under the same name, or by ones that differ only in reduce functions), design documents and queries issued through alternating handles, and a freshly built identical view cross-checked against the incrementally maintained one.",
    note="Map functions are a fixed family; otto and sg-bucket's collator/reduce are trusted dependencies. limit is not combined with reduce; the `keys` list parameter is not judged.",
    technique="runtime differential monitor: native twin of the map function over a KV read-back + fresh-view cross-check", design="§5 C12"),
  "C13": dict(level="exploration", engine="life",
-   text="Registry/handle model with every handle probed after every step; bounded-exhaustive scripts (all scripts of length 3 quick / 4 thorough over 12 step kinds) plus random scripts of length 30, comparing GetBucketNames, the reference counts (verif-only accessor), the database file's existence and data visibility with the model; concurrent open/close storms with invariants at quiescence, also under the race detector.",
+   text="Registry/handle model with every handle probed after every step (closed handles also through feeds, xattr, sub-document, counter and query entry points: all must fail with the bucket-closed error); bounded-exhaustive scripts (all scripts of length 3 quick / 4 thorough over 12 step kinds) plus random scripts of length 30, comparing GetBucketNames, the reference counts (verif-only accessor), the database file's existence and data visibility with the model; concurrent open/close storms with invariants at quiescence, also under the race detector.",
    note="Each on-disk directory is used with one bucket name; CloseAndDelete through a closed handle is exercised only while no other handle of that bucket is open (the clean-up idiom).",
    technique="runtime monitor: lifecycle reference model + probe of every handle after every step + race detector", design="§5 C13"),
  "C14": dict(level="exploration", engine="rt+diffsim+crash",
-   text="Real-time monitor: a deadline 2-3 s ahead is introduced through 19 entry points in 12 order classes (the later deadline of another key arrives through Set or through any of the 19 entry points, far Touch included); only reads poll: a read completing before second T that reports the key missing is a violation (sound under load), by T+3 s the tombstone and its deletion event must be there (or, for lengthened/cleared expiries, the document must still be readable), with a scheduler-lateness canary; GetExpiry is judged after every entry point sequentially (engine A); pending and overdue deadlines are checked across kill/close and reopen in a fresh process.",
+   text="Real-time monitor: a deadline 2-3 s ahead is introduced through 19 entry points in 13 order classes (the later deadline of another key arrives through Set or through any of the 19 entry points, far Touch included); only reads poll: a read completing before second T that reports the key missing is a violation (sound under load), by T+3 s the tombstone and its deletion event must be there (or, for lengthened/cleared expiries, the document must still be readable), with a scheduler-lateness canary; GetExpiry is judged after every entry point sequentially (engine A); pending and overdue deadlines are checked across kill/close and reopen in a fresh process.",
    note="Inherently wall-clock; 'a few seconds' is fixed at B = 3 s. Other deadlines of the same bucket are absent or >= T+8 s.",
    technique="real-time runtime monitor (read-only polling + feed observer + canary) + sequential expiry-in-force oracle + reopen experiment", design="§5 C14"),
  "C15": dict(level="exploration", engine="linz",
-   text="Checkpoint monitor: writers run while a resume-mode feed is started through alternating handles, allowed a PRNG-chosen number of callbacks (callback parked so events stay queued), stopped, its checkpoint read, 3-8 times, then a Dump resume run catches up; a third of the scenarios run with a frozen clock so every CAS is the successor of the previous one; oracle: last_seq never exceeds the highest delivered CAS every key's final version is in the union of deliveries, and the newest version delivered for a key describes its final state; while the feed is stopped, keys of their own are re-created over tombstones that earlier runs already delivered and checkpointed, so only a resume can deliver their final version.",
+   text="Checkpoint monitor: writers run while a resume-mode feed is started through alternating handles, allowed a PRNG-chosen number of callbacks (callback parked so events stay queued), stopped, its checkpoint read, 3-8 times, then a Dump resume run catches up; a third of the scenarios run with a frozen clock so every CAS is the successor of the previous one; oracle: last_seq never exceeds the highest delivered CAS every key's final version is in the union of deliveries, and the newest version delivered for a key describes its final state; while the feed is stopped, keys of their own are re-created over tombstones that earlier runs already delivered and checkpointed, so only a resume can deliver their final version; replicated documents with a CAS ten minutes ahead of the clock arrive between runs.",
    note="Stops are sampled at PRNG-chosen callback counts. The checkpoint document itself is excluded from the must-deliver set.",
    technique="runtime monitor over recorded deliveries and checkpoint documents across feed restarts", design="§5 C15"),
  "C16": dict(level="exploration", engine="life",
-   text="Feed-lifecycle scripts: three feeds from {live, backfill+live, dump, multi-collection} x starting handle x collection, then 2-6 shutdown actions in PRNG order from {terminators, DropDataStore, Close of either handle, CloseAndDelete} with a background writer; after every action each feed is checked against its expected status (done channel within 10 s and no callback afterwards, or a fresh write arriving within 10 s), the goroutine profile must hold no feed goroutine after the store is shut down; a queued-terminator probe; also under the race detector.",
+   text="Feed-lifecycle scripts: three feeds from {live, backfill+live, dump, multi-collection, dump without backfill, multi-collection dump} x starting handle x collection, then 2-6 shutdown actions in PRNG order from {terminators, DropDataStore, Close of either handle, CloseAndDelete} with a background writer; after every action each feed is checked against its expected status (done channel within 10 s and no callback afterwards, or a fresh write arriving within 10 s), the goroutine profile must hold no feed goroutine after the store is shut down; a queued-terminator probe; also under the race detector.",
    note="'Ends' is decided as bounded progress (10 s).",
    technique="runtime monitor: feed status model (done channels, barriers, post-termination callbacks, goroutine profile)", design="§5 C16"),
  "C18": dict(level="exploration", engine="diffsim+linz",
-   text="Sequential JSON-edit equality over path shapes x document shapes x CAS classes (incl. GetSubDocRaw against the addressed property); concurrent property-owner histories (each client owns one property and sets/removes it, others append to a list and write xattrs: every property reflects its owner's last acknowledged operation); forced windows at the subdoc.rw hook.",
+   text="Sequential JSON-edit equality (numbers compared as exact rationals: integers beyond 2^53 and long decimals must survive in every property) over path shapes x document shapes x CAS classes (incl. GetSubDocRaw against the addressed property); concurrent property-owner histories (each client owns one property and sets/removes it, others append to a list and write xattrs: every property reflects its owner's last acknowledged operation); forced windows at the subdoc.rw hook.",
    note="Paths with [] or escapes are outside the envelope; a property holding JSON null is only used as a parent on the path (must be refused like a missing parent), not addressed itself. Removals are issued with nil and with empty non-nil values.",
    technique="runtime differential monitor + ownership/conservation oracle under concurrency + hook-placed rival", design="§5 C18"),
  "C19": dict(level="exploration", engine="diffsim",
-   text="Query oracle: a family of eleven SQLite queries (including `xattrs IS NULL`, the raw xattrs column, and rows whose first or middle columns are SQL NULL) over $_keyspace is executed through Next and NextBytes on in-memory and on-disk buckets at PRNG-chosen points of histories over three collections sharing key names and compared with the same predicates evaluated natively over the KV read-back of that collection.",
+   text="Query oracle: a family of eleven SQLite queries (including `xattrs IS NULL`, the raw xattrs column, and rows whose first or middle columns are SQL NULL) over $_keyspace is executed through Next and NextBytes on in-memory and on-disk buckets at PRNG-chosen points of histories over three collections sharing key names and compared with the same predicates evaluated natively over the KV read-back of that collection; a query through the DataStore a second handle still holds for a dropped collection must return no rows.",
    note="The query family is fixed; SQLite's expression semantics are trusted. Body-property queries run only while every live document of the collection is valid JSON.",
    technique="runtime differential monitor: query rows vs native predicate over KV read-back", design="§5 C19"),
  "C20": dict(level="exploration", engine="life",
-   text="Shutdown scenarios in child processes: writers, feed start-up, view queries, 1-2 s expiries and Touch-introduced expiries in flight while Close / CloseAndDelete / DropDataStore fire after a delay or at the n-th hit of a hook point; observers: recovered panics, worker exit status and stderr (background panics), 20 s call watchdog with the rosmar functions blocked on locks, an unrelated bucket and a fresh handle must keep working, goroutine profile after shutdown, the race detector.",
+   text="Shutdown scenarios in child processes: writers, feed start-up, view queries, 1-2 s expiries and Touch-introduced expiries in flight (in a third of the scenarios a leftover handle of a deleted bucket of the same name and URL is closed while the successor is in use) while Close / CloseAndDelete / DropDataStore fire after a delay or at the n-th hit of a hook point; observers: recovered panics, worker exit status and stderr (background panics), 20 s call watchdog with the rosmar functions blocked on locks, an unrelated bucket and a fresh handle must keep working, goroutine profile after shutdown, the race detector.",
    note="'Never deadlocks' is decided as 'no call exceeded 20 s with goroutines waiting on rosmar locks'. Schedules are sampled; hooks place the shutdown inside the named windows.",
    technique="process-level runtime monitor (exit status, panics, lock-wait dumps, goroutine profile) + race detector", design="§5 C20"),
 })
